@@ -62,7 +62,9 @@ def gen_cases(tier, seed):
         prc_e = [c for c in stop if SH.has_process(c['tree'])]
         for lst in (prc_s, prc_e, big):
             rng.shuffle(lst)
-        cases = thr_s + prc_s[:10] + thr_e + prc_e[:12] + big[:3]
+        must = {'seqPT', 'seqPP', 'P3b', 'ensTP', 'seq-ensP'}  # multi-worker process stage upstream of another reader, process ensemble members
+        bigq = [c for c in big if c['name'] in must]
+        cases = thr_s + prc_s[:10] + thr_e + prc_e[:12] + bigq
     else:
         cases = start + stop + big
         for c in list(start):
@@ -70,6 +72,27 @@ def gen_cases(tier, seed):
                 cases.append(dict(c, gc_threshold=rng.choice([700, 100, 10]), seed=rng.randrange(1 << 30)))
     rng.shuffle(cases)
     return cases
+
+
+def alive_now(before):
+    """mpservice Threads and child processes alive at this very instant that were not there before.
+    A correct __exit__ / failed __enter__ has joined them, so this is checked without any grace period."""
+    import multiprocessing
+    import threading as th
+
+    names_before = [t[0] for t in before['threads']]
+    out = []
+    for t in th.enumerate():
+        cls = type(t).__module__ + '.' + type(t).__name__
+        if cls == 'mpservice.threading.Thread' and t.is_alive() and not t.name.startswith('vf-'):
+            if t.name in names_before:
+                names_before.remove(t.name)
+                continue
+            out.append(('thread', t.name))
+    for p in multiprocessing.active_children():
+        if p.is_alive():
+            out.append(('process', p.name))
+    return out
 
 
 def with_init_fault(tree, leaf_tag, idx):
@@ -123,6 +146,7 @@ def run_start_fault(case):
             box['entered'] = True
         except BaseException as e:  # noqa: BLE001
             box['exc'] = e
+            box['alive_at_return'] = alive_now(before)
 
     try:
         watch.run_bounded(enter, BOUND, '__enter__ with a failing worker')
@@ -141,6 +165,9 @@ def run_start_fault(case):
             viol.append({'mech': 'lifecycle/enter-raised-other-error', 'msg': f'__enter__ raised {e!r}, expected InitBoom{(case["fail_leaf"], case["fail_index"])!r}'})
         else:
             obs['enter_raised_own_error'] = 1
+    if box.get('alive_at_return'):
+        kind = 'processes' if any(k == 'process' for k, _ in box['alive_at_return']) else 'threads'
+        viol.append({'mech': f'lifecycle/workers-left-after-failed-enter/{kind}', 'msg': f'{case["name"]}: worker {case["fail_leaf"]}[{case["fail_index"]}] failed to initialise; alive when __enter__ raised: {box["alive_at_return"]!r}'[:600]})
     box.clear()
     e = None
     extra, info = watch.leak_check(before, wait=6.0)
@@ -284,11 +311,13 @@ def run_stop(case):
                     async with server:
                         box['res'] = await workload_async(cycle)
                         box['t_exit'] = time.monotonic()
+                    box['alive_at_return'] = alive_now(before)
                 asyncio.run(main())
             else:
                 with server:
                     box['res'] = workload_sync(cycle)
                     box['t_exit'] = time.monotonic()
+                box['alive_at_return'] = alive_now(before)
             box['exit_s'] = time.monotonic() - box['t_exit']
 
         try:
@@ -308,6 +337,9 @@ def run_stop(case):
         ok = judge_small(tree, box.get('res') or [], viol, f'cycle-{min(cycle, 1)}-{wl}')
         if cycle > 0 and ok:
             obs['reentries_ok'] += 1
+        if box.get('alive_at_return'):
+            viol.append({'mech': 'lifecycle/worker-outlives-exit', 'msg': f'{case["name"]} workload {wl} cycle {cycle}: alive at the moment __exit__ returned: {box["alive_at_return"]!r}'[:500]})
+        obs['strict_exit_checks'] = obs.get('strict_exit_checks', 0) + 1
         if server.backlog != 0:
             viol.append({'mech': 'lifecycle/backlog-survives-exit', 'msg': f'{case["name"]} workload {wl}: backlog {server.backlog} after __exit__ (cycle {cycle})'})
         box.clear()
